@@ -46,3 +46,29 @@ Theorem C16_level_path_non_scalar_raises : forall eps v ts ncols f lvl gt np, nc
   level_path Rops eps v ts ncols f lvl gt np = Err ValueError.
 Proof. exact level_path_non_scalar. Qed.
 Print Assumptions C16_level_path_non_scalar_raises.
+
+(* level_path, in path order (before near-duplicates are merged): the points are pairwise distinct nodes of a walk, every segment
+   joins the two crossing points of ONE crossed mesh triangle, and that triangle is the one reported for the segment *)
+Theorem C16_segments_lie_in_reported_triangles : forall v ts f lvl r, level_path_raw Rops v ts f lvl = Ok r ->
+  length (lr_tria r) = length (consecutive (lr_points r)) /\
+  Forall (fun '((a, b), T) => exists t g0 g1 g2,
+            nth_error ts T = Some t /\ crossing Rops f lvl t = Some (g0, g1, g2) /\
+            ((a = edge_point Rops v f lvl g0 g1 /\ b = edge_point Rops v f lvl g0 g2) \/
+             (a = edge_point Rops v f lvl g0 g2 /\ b = edge_point Rops v f lvl g0 g1)))
+         (combine (consecutive (lr_points r)) (lr_tria r)).
+Proof. exact raw_segments. Qed.
+Print Assumptions C16_segments_lie_in_reported_triangles.
+Theorem C16_path_visits_every_node_once_along_edges : forall edges path eidx, reduce_edges_to_path edges = Ok (path, eidx) ->
+  NoDup path /\ length path = n_nodes edges /\
+  Forall (fun '(x, y) => In y (nbr_edges edges x)) (consecutive path) /\
+  length eidx = length (consecutive path) /\
+  Forall (fun '((x, y), e) => nth_error edges e = Some (x, y) \/ nth_error edges e = Some (y, x)) (combine (consecutive path) eidx).
+Proof. exact reduce_path_spec. Qed.
+Print Assumptions C16_path_visits_every_node_once_along_edges.
+
+(* n_points: n points, first and last point unchanged (all three resampling rounds) *)
+Theorem C16_resampling_keeps_end_points : forall q rest n, (2 <= n)%nat ->
+  let r := iterative_resample Rops (q :: rest) n in
+  length r = n /\ hd (zero3 Rops) r = q /\ last r (zero3 Rops) = last (q :: rest) (zero3 Rops).
+Proof. exact iterative_resample_endpoints. Qed.
+Print Assumptions C16_resampling_keeps_end_points.
